@@ -50,14 +50,24 @@ static void verror_at(char *filename, char *input, int line_no,
 }
 
 void error_at(char *loc, char *fmt, ...) {
+  // `loc` points into the text of some input file: usually the one
+  // being tokenized, but a string literal is re-read (and may be found
+  // faulty) long after its file was.
+  File *file = current_file;
+  for (int i = 0; input_files && input_files[i]; i++) {
+    File *f = input_files[i];
+    if (f->contents <= loc && loc <= f->contents + strlen(f->contents))
+      file = f;
+  }
+
   int line_no = 1;
-  for (char *p = current_file->contents; p < loc; p++)
+  for (char *p = file->contents; p < loc; p++)
     if (*p == '\n')
       line_no++;
 
   va_list ap;
   va_start(ap, fmt);
-  verror_at(current_file->name, current_file->contents, line_no, loc, fmt, ap);
+  verror_at(file->name, file->contents, line_no, loc, fmt, ap);
   exit(1);
 }
 
